@@ -228,18 +228,29 @@ func (e *Engine) loadContractFile(path string, pkg *types.Package) error {
 				c.IsIface = true
 				c.Key = "functype:" + pkg.Path() + "." + fields[1][:strings.Index(fields[1], "(")]
 			case "iface":
-				// iface Type.Method(params) (results)
-				i := strings.Index(rest, ".")
+				// iface [pkg.]Type.Method(params) (results)
+				par := strings.Index(rest, "(")
+				i := strings.LastIndex(rest[:par], ".")
 				tn := rest[:i]
-				fd, err := parseFuncHeader("func (self " + tn + ") " + rest[i+1:])
+				recvT := tn
+				if j := strings.Index(tn, "."); j >= 0 {
+					recvT = tn[j+1:]
+				}
+				fd, err := parseFuncHeader("func (self " + recvT + ") " + rest[i+1:])
 				if err != nil {
 					return fail(err)
 				}
 				c.Decl = fd
 				c.IsIface = true
 				c.Key = pkg.Path() + "." + tn + "." + fd.Name.Name
-				if strings.Contains(tn, "/") {
-					c.Key = tn + "." + fd.Name.Name
+				if j := strings.Index(tn, "."); j >= 0 {
+					path := tn[:j]
+					for _, imp := range pkg.Imports() {
+						if imp.Name() == tn[:j] {
+							path = imp.Path()
+						}
+					}
+					c.Key = path + "." + tn[j+1:] + "." + fd.Name.Name
 				}
 			}
 			if old := e.contracts[c.Key]; old != nil {
